@@ -215,6 +215,9 @@ def run(rep, facts, tier):
         rep.check(ok, 'R15.3', '%s/by-id' % g, 'looks the parameter up by id in the map', '%s does not look its parameter up by id' % g, x.where())
 
     rule_15_7(rep, facts['default'])
+    for cfg in CONFIGS:
+        if cfg in facts:
+            rule_15_8(rep, facts[cfg], cfg)
 
     # ------------------------------------------------------------ R15.6 crossed roles (shared lint, rdv/swaplint.py)
     from rdv import swaplint
@@ -383,3 +386,39 @@ def _strip_refs(t):
     while isinstance(t, tuple) and t and t[0] in ('ref', 'deref') and len(t) > 1 and isinstance(t[1], tuple):
         t = t[1]
     return t
+
+
+def rule_15_8(rep, fx, cfg):
+    """A length that goes into a 16-bit (or narrower) wire field must be range-checked: `len as u16` wraps silently for a long value and the rest of the list is then read
+    as parameters (or not at all)."""
+    if cfg == 'default':
+        rep.rule('R15.8', 'narrow length fields: in every hand-written serializer, a value written with write_u16 / write_i16 / write_u8 that derives from the length of a collection '
+                          'comes through a checked conversion (try_from whose failure is an error), never through a narrowing `as` cast; Parameter::write_to is the one instance '
+                          '(the 16-bit parameter length)')
+    pre = ''
+    n = 0
+    for b in fx.bodies:
+        if b.j.get('test') or b.j.get('from_macro') or b.kind not in ('fn', 'assoc_fn'):
+            continue
+        og = None
+        for bb, t in b.calls():
+            cr = callee_res(t)
+            if cr.rsplit('::', 1)[-1] not in ('write_u16', 'write_i16', 'write_u8') or 'speedy' not in cr or len(t['args']) < 2:
+                continue
+            if og is None:
+                og = Origins(b, transparent=False, summaries=False)
+            v = og.of_operand(t['args'][1], bb, 'term')
+            if not term_has(v, lambda z: z[0] == 'call' and z[1].rsplit('::', 1)[-1] in ('len', 'len_serialized', 'count')):
+                continue
+            n += 1
+            rep.analysed(b)
+            # the length must pass a try_from on its way (the cast, if any, sits outside it: widening); a narrowing cast directly over the length is the defect
+            def narrowing_cast_over_len(z):
+                return z[0] == 'cast' and term_has(z, lambda y: y[0] == 'call' and y[1].rsplit('::', 1)[-1] in ('len', 'len_serialized', 'count')) and \
+                    not term_has(z, lambda y: y[0] == 'call' and y[1].endswith('::try_from'))
+            checked = term_has(v, lambda z: z[0] == 'call' and z[1].endswith('::try_from')) and not term_has(v, narrowing_cast_over_len)
+            rep.check(checked, 'R15.8', '%s%s/%s' % (pre, b.key, cr.rsplit('::', 1)[-1]), 'length converted with try_from (failure is an error)',
+                      '%s writes a length into a narrow wire field through an unchecked narrowing conversion (%s): a value longer than the field can express wraps the length around, '
+                      'and what is written does not parse back' % (b.key, term_str(v)[:100]), b.where(bb))
+    if cfg == 'default':
+        rep.floor('R15.8', n, 1, 'narrow length fields written by hand-written serializers')
